@@ -33,7 +33,8 @@ use serde_json::{json, Value as J};
 use std::collections::{BTreeMap, BTreeSet};
 use std::panic::{catch_unwind, AssertUnwindSafe};
 use std::path::{Path, PathBuf};
-use std::sync::atomic::{AtomicI64, AtomicUsize, Ordering};
+use std::io::{Read, Write};
+use std::sync::atomic::{AtomicBool, AtomicI64, AtomicUsize, Ordering};
 use std::sync::{Arc, Barrier, Mutex};
 use trust_runtime::web::ide::{IdeError, IdeErrorKind, IdeRole, IdeTreeNode, WebIdeState};
 
@@ -90,12 +91,13 @@ struct Sentinel {
     out_names: BTreeSet<String>,      // names that exist only outside the project
     pristine: BTreeMap<String, String>,
     dirty: bool,
+    http: Option<Arc<Ide>>,
 }
 
 impl Sentinel {
     fn new(scratch: &Path, tree: &J) -> Self {
         let mut s = Sentinel { scratch: scratch.to_path_buf(), tree: tree.clone(), paths: BTreeMap::new(), proj_rel: String::new(),
-                               out_names: BTreeSet::new(), pristine: BTreeMap::new(), dirty: true };
+                               out_names: BTreeSet::new(), pristine: BTreeMap::new(), dirty: true, http: None };
         let nodes = tree.as_object().expect("tree object");
         // absolute paths, parents first
         let mut todo: Vec<&String> = nodes.keys().collect();
@@ -253,16 +255,229 @@ fn err_kind(e: &IdeError) -> &'static str {
 fn panic_msg(e: Box<dyn std::any::Any + Send>) -> String {
     e.downcast_ref::<String>().cloned().or_else(|| e.downcast_ref::<&str>().map(|s| s.to_string())).unwrap_or_else(|| "panic".into())
 }
-fn ttl(ide: &WebIdeState) -> u64 {
-    ide.capabilities(true).limits.session_ttl_secs
+
+// ------------------------------------------------------------------ the API, called directly or over HTTP
+/// `--http`: every call goes through the real web server (`trust_runtime::web::start_web_server`, the routes
+/// of web.rs: session header, query / JSON decoding, status codes) instead of straight into `WebIdeState`.
+static HTTP_MODE: AtomicBool = AtomicBool::new(false);
+fn http_mode() -> bool {
+    HTTP_MODE.load(Ordering::Relaxed)
+}
+struct IdeErr {
+    kind: &'static str,
+    msg: String,
+    ver: Option<u64>,
+}
+fn ide_err(e: &IdeError) -> IdeErr {
+    IdeErr { kind: err_kind(e), msg: e.to_string(), ver: e.current_version() }
+}
+/// `IdeError::status_code` read backwards
+fn kind_of_status(code: u16) -> &'static str {
+    match code {
+        401 => "unauthorized",
+        403 => "forbidden",
+        404 => "notfound",
+        409 => "conflict",
+        400 => "invalid",
+        413 => "toolarge",
+        429 => "limit",
+        500 => "internal",
+        _ => "http-status",
+    }
+}
+struct HttpIde {
+    addr: String,
+    _server: trust_runtime::web::WebServer,
+    _fx: Mutex<crate::ctrlauth::Fx>,
+}
+enum Ide {
+    Direct(WebIdeState),
+    Http(HttpIde),
+}
+static HTTP_SEQ: AtomicUsize = AtomicUsize::new(0);
+fn pct(s: &str) -> String {
+    s.bytes().map(|b| if b.is_ascii_alphanumeric() { (b as char).to_string() } else { format!("%{b:02X}") }).collect()
+}
+impl HttpIde {
+    fn start(proj: PathBuf, work: &Path) -> Result<HttpIde, String> {
+        let n = HTTP_SEQ.fetch_add(1, Ordering::SeqCst);
+        // next to the work directory, not inside it: the work directory is the sentinel tree that is snapshotted
+        let fxdir = work.parent().unwrap_or(work).join(format!("{}-httpfx/{n}", work.file_name().map(|f| f.to_string_lossy().to_string()).unwrap_or_default()));
+        std::fs::create_dir_all(&fxdir).map_err(|e| e.to_string())?;
+        let fx = crate::ctrlauth::Fx::build_with_pairing(&fxdir, &crate::ctrlauth::Cfg { token: false, debug: false, mode: "debug".into() }, None);
+        for _ in 0..20 {
+            let port = {
+                let l = std::net::TcpListener::bind("127.0.0.1:0").map_err(|e| e.to_string())?;
+                l.local_addr().map_err(|e| e.to_string())?.port()
+            };
+            let addr = format!("127.0.0.1:{port}");
+            let cfg = trust_runtime::config::WebConfig { enabled: true, listen: addr.as_str().into(), auth: trust_runtime::config::WebAuthMode::Local, tls: false };
+            if let Ok(server) = trust_runtime::web::start_web_server(&cfg, fx.control_state(), None, None, Some(proj.clone()), None) {
+                let h = HttpIde { addr, _server: server, _fx: Mutex::new(fx) };
+                for _ in 0..200 {
+                    if h.req("GET", "/api/ide/capabilities", None, None).is_ok() {
+                        return Ok(h);
+                    }
+                    std::thread::sleep(std::time::Duration::from_millis(5));
+                }
+                return Err("web server does not answer".into());
+            }
+        }
+        Err("no free loopback port for the web server".into())
+    }
+    /// One HTTP/1.0 request on a connection of its own -> (status, JSON body)
+    fn req(&self, method: &str, url: &str, session: Option<&str>, body: Option<&J>) -> Result<(u16, J), String> {
+        let mut s = std::net::TcpStream::connect(&self.addr).map_err(|e| e.to_string())?;
+        s.set_read_timeout(Some(std::time::Duration::from_secs(60))).ok();
+        let b = body.map(|b| b.to_string()).unwrap_or_default();
+        let mut head = format!("{method} {url} HTTP/1.0\r\nHost: {}\r\n", self.addr);
+        if let Some(t) = session {
+            head.push_str(&format!("X-Trust-Ide-Session: {t}\r\n"));
+        }
+        if method == "POST" {
+            head.push_str(&format!("Content-Type: application/json\r\nContent-Length: {}\r\n", b.len()));
+        }
+        head.push_str("\r\n");
+        s.write_all(head.as_bytes()).map_err(|e| e.to_string())?;
+        s.write_all(b.as_bytes()).map_err(|e| e.to_string())?;
+        let mut raw = Vec::new();
+        s.read_to_end(&mut raw).map_err(|e| e.to_string())?;
+        let text = String::from_utf8_lossy(&raw).to_string();
+        let status: u16 = text.split_whitespace().nth(1).and_then(|c| c.parse().ok()).ok_or_else(|| format!("no status line in {:?}", text.chars().take(80).collect::<String>()))?;
+        let body = text.split_once("\r\n\r\n").map(|x| x.1).unwrap_or("");
+        Ok((status, serde_json::from_str(body).unwrap_or(J::Null)))
+    }
+    /// -> the `result` of an ok answer, or the error an `IdeError` would have been
+    fn call(&self, method: &str, url: &str, session: &str, body: Option<J>) -> Result<J, IdeErr> {
+        match self.req(method, url, Some(session), body.as_ref()) {
+            Err(e) => panic!("TOOL: http transport: {e}"),
+            Ok((200, j)) if j["ok"] == true => Ok(j["result"].clone()),
+            Ok((code, j)) => Err(IdeErr { kind: kind_of_status(code), msg: j["error"].as_str().unwrap_or("").to_string(), ver: j["current_version"].as_u64() }),
+        }
+    }
+}
+fn tree_names(nodes: &J, out: &mut Vec<String>) {
+    for n in nodes.as_array().map(|a| a.as_slice()).unwrap_or(&[]) {
+        out.push(n["path"].as_str().unwrap_or("").to_string());
+        out.push(n["name"].as_str().unwrap_or("").to_string());
+        tree_names(&n["children"], out);
+    }
+}
+impl Ide {
+    fn new(proj: PathBuf, work: &Path) -> Result<Ide, String> {
+        if http_mode() {
+            HttpIde::start(proj, work).map(Ide::Http)
+        } else {
+            Ok(Ide::Direct(WebIdeState::new(Some(proj))))
+        }
+    }
+    fn create_session(&self, role: IdeRole) -> Result<String, String> {
+        match self {
+            Ide::Direct(ide) => ide.create_session(role).map(|s| s.token).map_err(|e| e.to_string()),
+            Ide::Http(h) => {
+                let r = if matches!(role, IdeRole::Editor) { "editor" } else { "viewer" };
+                match h.req("POST", "/api/ide/session", None, Some(&json!({"role": r}))) {
+                    Ok((200, j)) if j["ok"] == true => j["result"]["token"].as_str().map(str::to_string).ok_or_else(|| "session without token".to_string()),
+                    Ok((c, j)) => Err(format!("session refused: {c} {j}")),
+                    Err(e) => Err(e),
+                }
+            }
+        }
+    }
+    fn ttl(&self) -> u64 {
+        match self {
+            Ide::Direct(ide) => ide.capabilities(true).limits.session_ttl_secs,
+            Ide::Http(h) => h.req("GET", "/api/ide/capabilities", None, None).ok().and_then(|(_, j)| j["result"]["limits"]["session_ttl_secs"].as_u64()).expect("TOOL: capabilities over http"),
+        }
+    }
+    /// any request that renews the session's idle timer
+    fn renew(&self, tok: &str) {
+        match self {
+            Ide::Direct(ide) => {
+                let _ = ide.project_selection(tok);
+            }
+            Ide::Http(h) => {
+                let _ = h.req("GET", "/api/ide/project", Some(tok), None);
+            }
+        }
+    }
+    fn open(&self, tok: &str, p: &str) -> Result<(String, u64), IdeErr> {
+        match self {
+            Ide::Direct(ide) => ide.open_source(tok, p).map(|s| (s.content, s.version)).map_err(|e| ide_err(&e)),
+            Ide::Http(h) => h.call("GET", &format!("/api/ide/file?path={}", pct(p)), tok, None).map(|r| (r["content"].as_str().unwrap_or("").to_string(), r["version"].as_u64().unwrap_or(0))),
+        }
+    }
+    fn write(&self, tok: &str, p: &str, exp: u64, content: String, we: bool) -> Result<u64, IdeErr> {
+        match self {
+            Ide::Direct(ide) => ide.apply_source(tok, p, exp, content, we).map(|w| w.version).map_err(|e| ide_err(&e)),
+            Ide::Http(h) => h.call("POST", "/api/ide/file", tok, Some(json!({"path": p, "expected_version": exp, "content": content}))).map(|r| r["version"].as_u64().unwrap_or(0)),
+        }
+    }
+    fn create(&self, tok: &str, p: &str, dir: bool, content: Option<String>, we: bool) -> Result<String, IdeErr> {
+        match self {
+            Ide::Direct(ide) => ide.create_entry(tok, p, dir, content, we).map(|r| r.path).map_err(|e| ide_err(&e)),
+            Ide::Http(h) => h.call("POST", "/api/ide/fs/create", tok, Some(json!({"path": p, "kind": if dir { "directory" } else { "file" }, "content": content}))).map(|r| r["path"].as_str().unwrap_or("").to_string()),
+        }
+    }
+    fn delete(&self, tok: &str, p: &str, we: bool) -> Result<String, IdeErr> {
+        match self {
+            Ide::Direct(ide) => ide.delete_entry(tok, p, we).map(|r| r.path).map_err(|e| ide_err(&e)),
+            Ide::Http(h) => h.call("POST", "/api/ide/fs/delete", tok, Some(json!({"path": p}))).map(|r| r["path"].as_str().unwrap_or("").to_string()),
+        }
+    }
+    fn rename(&self, tok: &str, p: &str, new: &str, we: bool) -> Result<String, IdeErr> {
+        static TURN: AtomicUsize = AtomicUsize::new(0);
+        match self {
+            Ide::Direct(ide) => ide.rename_entry(tok, p, new, we).map(|r| r.path).map_err(|e| ide_err(&e)),
+            Ide::Http(h) => {
+                // the two spellings of the route, in turn
+                let url = if TURN.fetch_add(1, Ordering::Relaxed) % 2 == 0 { "/api/ide/fs/rename" } else { "/api/ide/fs/move" };
+                h.call("POST", url, tok, Some(json!({"path": p, "new_path": new}))).map(|r| r["path"].as_str().unwrap_or("").to_string())
+            }
+        }
+    }
+    fn list(&self, tok: &str) -> Result<Vec<String>, IdeErr> {
+        match self {
+            Ide::Direct(ide) => ide.list_sources(tok).map_err(|e| ide_err(&e)),
+            Ide::Http(h) => h.call("GET", "/api/ide/files", tok, None).map(|r| r["files"].as_array().map(|a| a.iter().map(|f| f.as_str().unwrap_or("").to_string()).collect()).unwrap_or_default()),
+        }
+    }
+    fn tree(&self, tok: &str) -> Result<Vec<String>, IdeErr> {
+        match self {
+            Ide::Direct(ide) => ide.list_tree(tok).map(|v| {
+                let mut names = Vec::new();
+                flatten_tree(&v, &mut names);
+                names
+            }).map_err(|e| ide_err(&e)),
+            Ide::Http(h) => h.call("GET", "/api/ide/tree", tok, None).map(|r| {
+                let mut names = Vec::new();
+                tree_names(&r["tree"], &mut names);
+                names
+            }),
+        }
+    }
+    /// -> (previews, paths) of the hits for "mark"
+    fn search(&self, tok: &str) -> Result<(Vec<String>, Vec<String>), IdeErr> {
+        match self {
+            Ide::Direct(ide) => ide.workspace_search(tok, "mark", None, None, 10_000).map(|v| (v.iter().map(|h| h.preview.clone()).collect(), v.iter().map(|h| h.path.clone()).collect())).map_err(|e| ide_err(&e)),
+            Ide::Http(h) => h.call("GET", "/api/ide/search?q=mark&limit=500", tok, None).map(|r| {
+                let hits = r.as_array().cloned().or_else(|| r["hits"].as_array().cloned()).unwrap_or_default();
+                (hits.iter().map(|h| h["preview"].as_str().unwrap_or("").to_string()).collect(), hits.iter().map(|h| h["path"].as_str().unwrap_or("").to_string()).collect())
+            }),
+        }
+    }
+}
+
+fn ttl(ide: &Ide) -> u64 {
+    ide.ttl()
 }
 /// A session token of the requested kind on a fresh state.
-fn token_for(ide: &WebIdeState, sk: &str) -> Result<String, String> {
+fn token_for(ide: &Ide, sk: &str) -> Result<String, String> {
     match sk {
-        "editor" => ide.create_session(IdeRole::Editor).map(|s| s.token).map_err(|e| e.to_string()),
-        "viewer" => ide.create_session(IdeRole::Viewer).map(|s| s.token).map_err(|e| e.to_string()),
+        "editor" => ide.create_session(IdeRole::Editor),
+        "viewer" => ide.create_session(IdeRole::Viewer),
         "expired" => {
-            let t = ide.create_session(IdeRole::Editor).map(|s| s.token).map_err(|e| e.to_string())?;
+            let t = ide.create_session(IdeRole::Editor)?;
             jump_clock(ttl(ide) + 1);
             Ok(t)
         }
@@ -270,7 +485,7 @@ fn token_for(ide: &WebIdeState, sk: &str) -> Result<String, String> {
             // no session token at all, but a near miss of a live editor session's token (a proper prefix,
             // an extension, another letter case, the empty string) or an unrelated string, in turn
             static TURN: std::sync::atomic::AtomicUsize = std::sync::atomic::AtomicUsize::new(0);
-            let live = ide.create_session(IdeRole::Editor).map(|s| s.token).map_err(|e| e.to_string())?;
+            let live = ide.create_session(IdeRole::Editor)?;
             let turn = TURN.fetch_add(1, std::sync::atomic::Ordering::SeqCst);
             Ok(match turn % 5 {
                 0 => live[..live.len() - 1].to_string(),
@@ -296,52 +511,48 @@ struct Obs {
     texts: Vec<String>, // bytes the call returned
     names: Vec<String>, // project-relative paths / names the call returned
 }
-fn obs_err(e: &IdeError) -> Obs {
+fn obs_err(e: &IdeErr) -> Obs {
     // an error message is an answer too
-    Obs { ok: false, kind: err_kind(e).to_string(), texts: vec![e.to_string()], names: vec![] }
+    Obs { ok: false, kind: e.kind.to_string(), texts: vec![e.msg.clone()], names: vec![] }
 }
 const PATH_OPS: [&str; 7] = ["open", "write", "create", "mkdir", "delete", "rename_from", "rename_to"];
 const MUTATING: [&str; 6] = ["write", "create", "mkdir", "delete", "rename_from", "rename_to"];
 const LIST_OPS: [&str; 3] = ["list", "tree", "search"];
 
-fn do_call(ide: &WebIdeState, tok: &str, op: &str, p: &str, we: bool) -> Obs {
-    let fs = |r: Result<trust_runtime::web::ide::IdeFsResult, IdeError>| match r {
-        Ok(v) => Obs { ok: true, kind: "ok".into(), texts: vec![], names: vec![v.path] },
+fn do_call(ide: &Ide, tok: &str, op: &str, p: &str, we: bool) -> Obs {
+    let fs = |r: Result<String, IdeErr>| match r {
+        Ok(path) => Obs { ok: true, kind: "ok".into(), texts: vec![], names: vec![path] },
         Err(e) => obs_err(&e),
     };
     match op {
-        "open" => match ide.open_source(tok, p) {
-            Ok(s) => Obs { ok: true, kind: "ok".into(), texts: vec![s.content], names: vec![] },
+        "open" => match ide.open(tok, p) {
+            Ok((content, _)) => Obs { ok: true, kind: "ok".into(), texts: vec![content], names: vec![] },
             Err(e) => obs_err(&e),
         },
         "write" => {
             // the version comes from an open by the same session, as a browser would do it (what
             // that open returns is judged by the "open" operation, not here)
-            let expected = ide.open_source(tok, p).map(|s| s.version).unwrap_or(1);
-            match ide.apply_source(tok, p, expected, WRITTEN.to_string(), we) {
+            let expected = ide.open(tok, p).map(|s| s.1).unwrap_or(1);
+            match ide.write(tok, p, expected, WRITTEN.to_string(), we) {
                 Ok(_) => Obs { ok: true, kind: "ok".into(), texts: vec![], names: vec![] },
                 Err(e) => obs_err(&e),
             }
         }
-        "create" => fs(ide.create_entry(tok, p, false, Some(WRITTEN.to_string()), we)),
-        "mkdir" => fs(ide.create_entry(tok, p, true, None, we)),
-        "delete" => fs(ide.delete_entry(tok, p, we)),
-        "rename_from" => fs(ide.rename_entry(tok, p, "moved.st", we)),
-        "rename_to" => fs(ide.rename_entry(tok, "top.st", p, we)),
-        "list" => match ide.list_sources(tok) {
+        "create" => fs(ide.create(tok, p, false, Some(WRITTEN.to_string()), we)),
+        "mkdir" => fs(ide.create(tok, p, true, None, we)),
+        "delete" => fs(ide.delete(tok, p, we)),
+        "rename_from" => fs(ide.rename(tok, p, "moved.st", we)),
+        "rename_to" => fs(ide.rename(tok, "top.st", p, we)),
+        "list" => match ide.list(tok) {
             Ok(v) => Obs { ok: true, kind: "ok".into(), texts: vec![], names: v },
             Err(e) => obs_err(&e),
         },
-        "tree" => match ide.list_tree(tok) {
-            Ok(v) => {
-                let mut names = Vec::new();
-                flatten_tree(&v, &mut names);
-                Obs { ok: true, kind: "ok".into(), texts: vec![], names }
-            }
+        "tree" => match ide.tree(tok) {
+            Ok(names) => Obs { ok: true, kind: "ok".into(), texts: vec![], names },
             Err(e) => obs_err(&e),
         },
-        "search" => match ide.workspace_search(tok, "mark", None, None, 10_000) {
-            Ok(v) => Obs { ok: true, kind: "ok".into(), texts: v.iter().map(|h| h.preview.clone()).collect(), names: v.iter().map(|h| h.path.clone()).collect() },
+        "search" => match ide.search(tok) {
+            Ok((texts, names)) => Obs { ok: true, kind: "ok".into(), texts, names },
             Err(e) => obs_err(&e),
         },
         o => panic!("unknown op {o}"),
@@ -351,13 +562,29 @@ fn do_call(ide: &WebIdeState, tok: &str, op: &str, p: &str, we: bool) -> Obs {
 /// One call on a pristine sentinel with a fresh state; returns the recorded event.
 fn one_call(sn: &mut Sentinel, op: &str, pstr: &str, sk: &str, we: bool) -> J {
     sn.ensure();
-    let ide = WebIdeState::new(Some(sn.paths["proj"].clone()));
-    let tok = match token_for(&ide, sk) {
+    // (over HTTP one server per sentinel serves every call: the project directory is the same, and a server
+    // cannot be shut down; its state survives the restoring of the sentinel, as a running IDE's would)
+    if http_mode() && sn.http.is_none() {
+        match Ide::new(sn.paths["proj"].clone(), &sn.scratch) {
+            Ok(i) => sn.http = Some(Arc::new(i)),
+            Err(e) => return json!({"a": "ToolError", "msg": format!("web server: {e}")}),
+        }
+    }
+    let ide: Arc<Ide> = match &sn.http {
+        Some(i) => i.clone(),
+        None => Arc::new(Ide::Direct(WebIdeState::new(Some(sn.paths["proj"].clone())))),
+    };
+    let ide = &*ide;
+    if http_mode() {
+        // the sessions of the earlier calls on this server idle out (a state allows only so many live ones)
+        jump_clock(ttl(ide) + 1);
+    }
+    let tok = match token_for(ide, sk) {
         Ok(t) => t,
         Err(e) => return json!({"a": "ToolError", "msg": format!("create_session: {e}")}),
     };
     let a = if LIST_OPS.contains(&op) { "List" } else { "Op" };
-    let r = catch_unwind(AssertUnwindSafe(|| do_call(&ide, &tok, op, pstr, we)));
+    let r = catch_unwind(AssertUnwindSafe(|| do_call(ide, &tok, op, pstr, we)));
     let (di, dout, dh, changed) = sn.diff();
     match r {
         Err(e) => json!({"a": "Panic", "op": op, "sk": sk, "we": we, "msg": panic_msg(e), "dIn": di, "dOut": dout, "dHid": dh, "changed": changed}),
@@ -420,6 +647,9 @@ fn run_path_script(sn: &mut Sentinel, sc: &J, o: &mut Out) {
         o.line(&ev);
         if effective && MUTATING.contains(&op) {
             for (sk, we) in [("viewer", true), ("expired", true), ("invalid", true), ("editor", false)] {
+                if http_mode() && !we {
+                    continue; // the web routes always pass write_enabled = true
+                }
                 o.line(&one_call(sn, op, &pstr, sk, we));
             }
         }
@@ -443,7 +673,7 @@ fn content_of(id: i64, pad: usize) -> String {
     format!("C{id:05}\n{}", " ".repeat(pad))
 }
 struct Hist {
-    ide: WebIdeState,
+    ide: Ide,
     file: PathBuf,
     pad: usize,
     tokens: Vec<String>,
@@ -494,21 +724,22 @@ impl Hist {
     }
     fn open(&self, s: usize, known: &mut Vec<u64>) {
         self.begin(s, "open", true, 0);
-        let r = match catch_unwind(AssertUnwindSafe(|| self.ide.open_source(&self.tokens[s - 1], DOC))) {
+        let r = match catch_unwind(AssertUnwindSafe(|| self.ide.open(&self.tokens[s - 1], DOC))) {
             Err(_) => json!({"ok": false, "kind": "panic", "ver": 0, "content": 0}),
-            Ok(Ok(snap)) => json!({"ok": true, "kind": "ok", "ver": snap.version, "content": self.content_id(&snap.content)}),
-            Ok(Err(e)) => json!({"ok": false, "kind": hist_kind(&e), "ver": e.current_version().unwrap_or(0), "content": 0}),
+            Ok(Ok((content, version))) => json!({"ok": true, "kind": "ok", "ver": version, "content": self.content_id(&content)}),
+            Ok(Err(e)) => json!({"ok": false, "kind": hist_kind(&e), "ver": e.ver.unwrap_or(0), "content": 0}),
         };
         learn(known, &r);
         self.end(s, &r);
     }
     fn write(&self, s: usize, known: &mut Vec<u64>, we: bool, stale: bool) {
+        let we = we || http_mode(); // the web routes always pass write_enabled = true
         let exp = pick_version(known, stale);
         let new = self.begin(s, "write", we, exp);
-        let r = match catch_unwind(AssertUnwindSafe(|| self.ide.apply_source(&self.tokens[s - 1], DOC, exp, content_of(new, self.pad), we))) {
+        let r = match catch_unwind(AssertUnwindSafe(|| self.ide.write(&self.tokens[s - 1], DOC, exp, content_of(new, self.pad), we))) {
             Err(_) => json!({"ok": false, "kind": "panic", "ver": 0, "content": 0}),
-            Ok(Ok(w)) => json!({"ok": true, "kind": "ok", "ver": w.version, "content": 0}),
-            Ok(Err(e)) => json!({"ok": false, "kind": hist_kind(&e), "ver": e.current_version().unwrap_or(0), "content": 0}),
+            Ok(Ok(version)) => json!({"ok": true, "kind": "ok", "ver": version, "content": 0}),
+            Ok(Err(e)) => json!({"ok": false, "kind": hist_kind(&e), "ver": e.ver.unwrap_or(0), "content": 0}),
         };
         learn(known, &r);
         self.end(s, &r);
@@ -520,38 +751,38 @@ impl Hist {
     /// Each variant leaves the project as it found it.
     fn other(&self, k: u64) {
         let Ok(sess) = self.ide.create_session(IdeRole::Editor) else { return };
-        let t = sess.token.as_str();
+        let t = sess.as_str();
         let ide = &self.ide;
         let _ = catch_unwind(AssertUnwindSafe(|| match k % 6 {
             0 => {
-                let _ = ide.create_entry(t, "doc", true, None, true);
-                let _ = ide.delete_entry(t, "doc", true);
+                let _ = ide.create(t, "doc", true, None, true);
+                let _ = ide.delete(t, "doc", true);
             }
             1 => {
-                let _ = ide.create_entry(t, "doc.st.bak", false, Some("x".into()), true);
-                let _ = ide.open_source(t, "doc.st.bak");
-                let _ = ide.delete_entry(t, "doc.st.bak", true);
+                let _ = ide.create(t, "doc.st.bak", false, Some("x".into()), true);
+                let _ = ide.open(t, "doc.st.bak");
+                let _ = ide.delete(t, "doc.st.bak", true);
             }
             2 => {
-                let _ = ide.create_entry(t, "do", true, None, true);
-                let _ = ide.create_entry(t, "do/doc.st", false, Some("y".into()), true);
-                let _ = ide.open_source(t, "do/doc.st");
-                let _ = ide.delete_entry(t, "do", true);
+                let _ = ide.create(t, "do", true, None, true);
+                let _ = ide.create(t, "do/doc.st", false, Some("y".into()), true);
+                let _ = ide.open(t, "do/doc.st");
+                let _ = ide.delete(t, "do", true);
             }
             3 => {
-                let _ = ide.create_entry(t, "doc.s", false, Some("z".into()), true);
-                let _ = ide.rename_entry(t, "doc.s", "doc.stx", true);
-                let _ = ide.delete_entry(t, "doc.stx", true);
+                let _ = ide.create(t, "doc.s", false, Some("z".into()), true);
+                let _ = ide.rename(t, "doc.s", "doc.stx", true);
+                let _ = ide.delete(t, "doc.stx", true);
             }
             4 => {
-                let _ = ide.create_entry(t, "d", true, None, true);
-                let _ = ide.rename_entry(t, "d", "doc.st.d", true);
-                let _ = ide.delete_entry(t, "doc.st.d", true);
+                let _ = ide.create(t, "d", true, None, true);
+                let _ = ide.rename(t, "d", "doc.st.d", true);
+                let _ = ide.delete(t, "doc.st.d", true);
             }
             _ => {
-                let _ = ide.delete_entry(t, "doc.stx", true);
-                let _ = ide.delete_entry(t, "DOC.ST.", true);
-                let _ = ide.rename_entry(t, "nothing.st", "doc.st2", true);
+                let _ = ide.delete(t, "doc.stx", true);
+                let _ = ide.delete(t, "DOC.ST.", true);
+                let _ = ide.rename(t, "nothing.st", "doc.st2", true);
             }
         }));
     }
@@ -575,11 +806,11 @@ impl Hist {
         json!({"a": "Run", "kind": kind, "roles": self.roles, "ev": ev})
     }
 }
-fn hist_kind(e: &IdeError) -> &'static str {
-    match e.kind() {
-        IdeErrorKind::Conflict => "conflict",
-        IdeErrorKind::Unauthorized => "unauthorized",
-        IdeErrorKind::Forbidden => "forbidden",
+fn hist_kind(e: &IdeErr) -> &'static str {
+    match e.kind {
+        "conflict" => "conflict",
+        "unauthorized" => "unauthorized",
+        "forbidden" => "forbidden",
         _ => "other",
     }
 }
@@ -589,12 +820,12 @@ fn setup_hist(dir: &Path, roles: &[String], pad: usize) -> Result<Hist, String> 
     std::fs::create_dir_all(&proj).map_err(|e| e.to_string())?;
     let file = proj.join(DOC);
     std::fs::write(&file, content_of(1, pad)).map_err(|e| e.to_string())?;
-    let ide = WebIdeState::new(Some(proj));
+    let ide = Ide::new(proj, dir)?;
     let mut tokens = Vec::new();
     for r in roles {
         tokens.push(match r.as_str() {
-            "editor" => ide.create_session(IdeRole::Editor).map_err(|e| e.to_string())?.token,
-            "viewer" => ide.create_session(IdeRole::Viewer).map_err(|e| e.to_string())?.token,
+            "editor" => ide.create_session(IdeRole::Editor)?,
+            "viewer" => ide.create_session(IdeRole::Viewer)?,
             _ => format!("bm90LWEtc2Vzc2lvbi10b2tlbi0{}", tokens.len()),
         });
     }
@@ -648,7 +879,7 @@ fn run_seq_script(dir: &Path, sc: &J) -> J {
                 for half in [ttl / 2, ttl - ttl / 2 + 1] {
                     for (i, t) in h.tokens.iter().enumerate() {
                         if i != s - 1 && alive[i] {
-                            let _ = h.ide.project_selection(t);
+                            h.ide.renew(t);
                         }
                     }
                     jump_clock(half);
@@ -737,6 +968,7 @@ pub fn run(args: &[String]) -> i32 {
     let n = read_ndjson(path).len();
     let jobs = (arg_u64(args, "--jobs", 8) as usize).clamp(1, n.max(1));
     let exe = std::env::current_exe().expect("current_exe");
+    let http = args.iter().any(|a| a == "--http");
     let handles: Vec<_> = (0..jobs)
         .map(|j| {
             let (exe, path, part, work, tree) = (exe.clone(), path.to_string(), format!("{out}.part{j}"), format!("{work}/j{j}"), tree.to_string());
@@ -750,6 +982,7 @@ pub fn run(args: &[String]) -> i32 {
                     let st = std::process::Command::new(&exe)
                         .args(["webide-run", "--child", "--scripts", &path, "--out", &part, "--work", &work, "--tree", &tree,
                                "--from", &from.to_string(), "--step", &jobs.to_string()])
+                        .args(if http { vec!["--http"] } else { vec![] })
                         .status()
                         .map_err(|e| e.to_string())?;
                     if st.success() {
@@ -857,6 +1090,7 @@ fn child(args: &[String]) -> i32 {
         libc::setrlimit(libc::RLIMIT_CORE, &core);
     }
     std::panic::set_hook(Box::new(|_| {}));
+    HTTP_MODE.store(args.iter().any(|a| a == "--http"), Ordering::Relaxed);
     if !clock_selftest() {
         eprintln!("webide-run: the wall clock could not be advanced (clock_gettime interposition not effective)");
         return 3;
